@@ -95,6 +95,7 @@ type sample struct {
 	Source  string `json:",omitempty"`
 	Inputs  []string
 	TripleN int
+	Knobs   string `json:",omitempty"`
 	Delays  []string
 	Net     string
 }
@@ -128,6 +129,22 @@ func (w *world) Run(t *rt.Tape, trace bool) *core.Result {
 	want := gen.Eval(circ, in)
 	tripleN := []int{0, 1, 63, 64, 65, 100, 127, 129, 1000, 4095, 4097}[t.Choose(rt.SGen, 11)]
 
+	// Tuning knobs of the triple pool (half of the runs): with the low-water
+	// mark at a few words and batches of 1..8 words the refill protocol between
+	// the leader's producer and the consumers (sleep above the mark, wake at or
+	// below it, pool running dry in the middle of a level) is exercised by every
+	// small circuit instead of only by circuits with >260000 AND gates.
+	knobs := ""
+	if t.Choose(rt.SGen, 2) == 0 {
+		low := []int{0, 1, 2, 3, 5, 8}[t.Choose(rt.SGen, 6)]
+		first := 64 * []int{1, 2, 4}[t.Choose(rt.SGen, 3)]
+		next := 64 * []int{1, 2, 3, 8}[t.Choose(rt.SGen, 4)]
+		rt.SetKnob("gmw.lowWaterMark", low)
+		rt.SetKnob("gmw.batchSize.first", first)
+		rt.SetKnob("gmw.batchSize.next", next)
+		knobs = fmt.Sprintf("lowWaterMark=%d words, batch sizes %d then %d triples", low, first, next)
+	}
+
 	net := simnet.Current()
 	dir := simnet.DirConfig{Cap: core.TCPCaps[t.Choose(rt.SGen, len(core.TCPCaps))], Frag: []int{simnet.FragWhole, simnet.FragRandom, simnet.FragMaxK}[t.Choose(rt.SGen, 3)], FragK: 1000 + t.Choose(rt.SGen, 60000)}
 	if t.Choose(rt.SGen, 3) == 0 {
@@ -146,7 +163,7 @@ func (w *world) Run(t *rt.Tape, trace bool) *core.Result {
 		return time.Duration(rt.Choose(rt.SNet, 40)) * time.Millisecond
 	}
 	ps := make([]*party, n)
-	smp := sample{Parties: n, Circuit: gen.Describe(circ), Source: src, TripleN: tripleN, Net: core.DescribeDir(dir) + fmt.Sprintf(" dial-latency-mode=%d", dialLat)}
+	smp := sample{Parties: n, Circuit: gen.Describe(circ), Source: src, TripleN: tripleN, Knobs: knobs, Net: core.DescribeDir(dir) + fmt.Sprintf(" dial-latency-mode=%d", dialLat)}
 	joinDelay := make([]time.Duration, n)
 	connDelay := make([]time.Duration, n)
 	runDelay := make([]time.Duration, n)
@@ -173,7 +190,12 @@ func (w *world) Run(t *rt.Tape, trace bool) *core.Result {
 		for _, p := range ps {
 			p := p
 			rt.GoParty(fmt.Sprintf("p%d", p.id), "main", func() {
-				defer func() { p.done = true }()
+				// (not a plain defer: the kernel unwinds blocked tasks at the end of a run)
+				defer func() {
+					if !rt.Unwinding() {
+						p.done = true
+					}
+				}()
 				if p.id != 0 {
 					rt.Sleep(joinDelay[p.id])
 					p.nw, p.joinErr = gmw.JoinNetwork(ps[0].addr, p.addr, p.id)
